@@ -5,3 +5,4 @@ pub mod util;
 pub mod c07;
 pub mod scratch;
 pub mod c06;
+pub mod c03;
